@@ -84,6 +84,7 @@ def op : P Op := do
   | "G" => pure (.get (← nat))
   | "g" => pure (.getp (← nat))
   | "S" => do let n ← nat; let v ← val; pure (.set n v)
+  | "V" => do let n ← nat; let v ← val; pure (.setv n v)
   | "U" => do
       let k ← nat
       let kw ← rep k (do let n ← nat; let v ← val; pure (n, v))
